@@ -1570,6 +1570,12 @@ impl Tree {
 
 		// Step 2: Reload in-memory state to match restored files
 
+		// The value log directory was replaced as well: drop the writer and the file
+		// handles that belong to the discarded timeline.
+		if let Some(ref vlog) = self.core.inner.vlog {
+			vlog.reload_from_directory()?;
+		}
+
 		// Create a new LevelManifest from the current path
 		let new_levels = LevelManifest::new(Arc::clone(&self.core.inner.opts))?;
 
